@@ -19,7 +19,16 @@ structure Spelling where
   tz : TzStyle
   /-- a blank before the offset -/
   tzsep : Bool
+  /-- month, day, hour, minute and second zero-padded to two digits (`1990-01-01 00:00`) or not
+  (`1990-1-1 0:0`) -/
+  pad : Bool
 deriving Repr
+
+/-- `str(n)` for `n < 100` -/
+def unp2 (n : Nat) : Str := if n < 10 then [dch n] else pad2 n
+
+/-- a one- or two-digit field -/
+def w2 (pad : Bool) (n : Nat) : Str := if pad then pad2 n else unp2 n
 
 def signChar (off : Int) : Char := if off < 0 then '-' else '+'
 
@@ -33,6 +42,7 @@ def tzText (off : Int) : TzStyle → Str
 /-- a spelling can express these fields and this offset -/
 structure Spelling.Ok (sp : Spelling) (f : Fields) (off : Int) : Prop where
   sep : sp.sep ≠ '\n'
+  sepd : sp.pad = false → isDig sp.sep = false
   sec : sp.seconds = false → f.second = 0
   hours : sp.tz = .hours → off.natAbs % 60 = 0
   utc : sp.tz = .zulu ∨ sp.tz = .none → off = 0
@@ -41,11 +51,47 @@ def tzPart (off : Int) (sp : Spelling) : Str :=
   (if sp.tzsep && sp.tz != .none then [' '] else []) ++ tzText off sp.tz
 
 def spellDate (f : Fields) (off : Int) (sp : Spelling) : Str :=
-  pad4 f.year.toNat ++ '-' :: (pad2 f.month ++ '-' :: (pad2 f.day ++ sp.sep :: (pad2 f.hour ++ ':' ::
-    (pad2 f.minute ++ ((if sp.seconds then ':' :: pad2 f.second else []) ++ tzPart off sp)))))
+  pad4 f.year.toNat ++ '-' :: (w2 sp.pad f.month ++ '-' :: (w2 sp.pad f.day ++ sp.sep :: (w2 sp.pad f.hour ++ ':' ::
+    (w2 sp.pad f.minute ++ ((if sp.seconds then ':' :: w2 sp.pad f.second else []) ++ tzPart off sp)))))
 
 def spellUnits (p : Str) (f : Fields) (off : Int) (sp : Spelling) : Str :=
   p ++ ' ' :: (since ++ ' ' :: spellDate f off sp)
+
+/-! ### one- or two-digit fields -/
+
+theorem num2_w2 (pad : Bool) (n : Nat) (hn : n < 100) (r : Str) (hr : pad = false → NoDigHead r) :
+    num2 (w2 pad n ++ r) = some (n, r) := by
+  cases pad with
+  | true => exact num2_pad2 n hn r
+  | false =>
+    by_cases h : n < 10
+    · have := num2_one (dch n) (isDig_dch n) r (hr rfl)
+      simp only [w2, unp2, h, if_true, List.cons_append, List.nil_append, this, dval_dch, Bool.false_eq_true, if_false]
+      congr 2; omega
+    · simp only [w2, unp2, h, if_false, Bool.false_eq_true]
+      exact num2_pad2 n hn r
+
+theorem dashNum_w2 (pad : Bool) (n : Nat) (hn : n < 100) (r : Str) (hr : pad = false → NoDigHead r) :
+    dashNum ('-' :: (w2 pad n ++ r)) = some (n, r) := by
+  simp [dashNum, num2_w2 pad n hn r hr]
+
+theorem w2_head (pad : Bool) (n : Nat) (r : Str) : ∃ k r', w2 pad n ++ r = dch k :: r' := by
+  cases pad with
+  | true => exact ⟨n / 10, dch n :: r, by simp [w2, pad2]⟩
+  | false =>
+    by_cases h : n < 10
+    · exact ⟨n, r, by simp [w2, unp2, h]⟩
+    · exact ⟨n / 10, dch n :: r, by simp [w2, unp2, h, pad2]⟩
+
+theorem w2_getLast (pad : Bool) (n : Nat) : (w2 pad n).getLast? = some (dch n) := by
+  cases pad with
+  | true => simp [w2, pad2]
+  | false => by_cases h : n < 10 <;> simp [w2, unp2, h, pad2]
+
+theorem w2_ne_nil (pad : Bool) (n : Nat) : w2 pad n ≠ [] := by
+  cases pad with
+  | true => simp [w2, pad2]
+  | false => by_cases h : n < 10 <;> simp [w2, unp2, h, pad2]
 
 /-! ### offsets in the other styles -/
 
@@ -91,7 +137,7 @@ theorem signChar_ne_nl (off : Int) : signChar off ≠ '\n' := by
 theorem parseTzGroup_tzPart (off : Int) (hoff : off.natAbs < 1440) (sp : Spelling)
     (hh : sp.tz = .hours → off.natAbs % 60 = 0) (hu : sp.tz = .zulu ∨ sp.tz = .none → off = 0) :
     (parseTzGroup (tzPart off sp)).getD 0 = off := by
-  obtain ⟨sep, seconds, tz, tzsep⟩ := sp
+  obtain ⟨sep, seconds, tz, tzsep, pad⟩ := sp
   have hc := parseOffset_formatOffset off hoff
   have hc' : parseOffset (signChar off :: (pad2 (off.natAbs / 60) ++ ':' :: pad2 (off.natAbs % 60))) = some off :=
     parseOffset_formatOffset off hoff
@@ -142,11 +188,14 @@ def TzHead : Str → Prop
   | c :: _ => c ≠ '.' ∧ c ≠ ':'
 
 theorem tzHead_tzPart (off : Int) (sp : Spelling) : TzHead (tzPart off sp) := by
-  obtain ⟨sep, seconds, tz, tzsep⟩ := sp
-  have hs : signChar off ≠ '.' ∧ signChar off ≠ ':' := by
-    rcases signChar_cases off with h | h <;> rw [h] <;> decide
+  obtain ⟨sep, seconds, tz, tzsep, pad⟩ := sp
   cases tz <;> cases tzsep <;> simp [tzPart, tzText, TzHead, formatOffset, signChar] <;>
     (try (by_cases h : off < 0 <;> simp [h]))
+
+theorem noDig_tzPart (off : Int) (sp : Spelling) : NoDigHead (tzPart off sp) := by
+  obtain ⟨sep, seconds, tz, tzsep, pad⟩ := sp
+  cases tz <;> cases tzsep <;> simp [tzPart, tzText, NoDigHead, formatOffset, signChar] <;>
+    (try (by_cases h : off < 0 <;> simp [h])) <;> decide
 
 theorem parseFrac_tzHead (r : Str) (h : TzHead r) : parseFrac r = (false, r) := by
   cases r with
@@ -158,20 +207,23 @@ theorem parseSec_tzHead (r : Str) (h : TzHead r) : parseSec r = (0, false, r) :=
   | nil => rfl
   | cons c r => simp [TzHead] at h; simp [parseSec, h.2]
 
-theorem parseSec_pad2 (s : Nat) (hs : s < 100) (r : Str) (h : TzHead r) :
-    parseSec (':' :: (pad2 s ++ r)) = (s, false, r) := by
-  simp [parseSec, num2_pad2 s hs, parseFrac_tzHead r h]
+theorem parseSec_w2 (pad : Bool) (s : Nat) (hs : s < 100) (r : Str) (h : TzHead r) (hd : NoDigHead r) :
+    parseSec (':' :: (w2 pad s ++ r)) = (s, false, r) := by
+  simp [parseSec, num2_w2 pad s hs r (fun _ => hd), parseFrac_tzHead r h]
 
-theorem parseTime_spelled (sep : Char) (hsep : sep ≠ '\n') (h mi s : Nat) (hh : h < 100) (hmi : mi < 100)
-    (hs : s < 100) (seconds : Bool) (hsec : seconds = false → s = 0) (r : Str) (hr : TzHead r) :
-    parseTime (sep :: (pad2 h ++ ':' :: (pad2 mi ++ ((if seconds then ':' :: pad2 s else []) ++ r)))) =
+theorem parseTime_spelled (pad : Bool) (sep : Char) (hsep : sep ≠ '\n') (h mi s : Nat) (hh : h < 100) (hmi : mi < 100)
+    (hs : s < 100) (seconds : Bool) (hsec : seconds = false → s = 0) (r : Str) (hr : TzHead r) (hd : NoDigHead r) :
+    parseTime (sep :: (w2 pad h ++ ':' :: (w2 pad mi ++ ((if seconds then ':' :: w2 pad s else []) ++ r)))) =
       some (h, mi, s, false, r) := by
+  have hcolon : ∀ x : Str, NoDigHead (':' :: x) := fun _ => by simp [NoDigHead]; decide
   cases seconds with
   | true =>
-    simp [parseTime, hsep, num2_pad2 h hh, num2_pad2 mi hmi, parseSec_pad2 s hs r hr]
+    simp [parseTime, hsep, num2_w2 pad h hh _ (fun _ => hcolon _), num2_w2 pad mi hmi _ (fun _ => hcolon _),
+      parseSec_w2 pad s hs r hr hd]
   | false =>
     have := hsec rfl; subst this
-    simp [parseTime, hsep, num2_pad2 h hh, num2_pad2 mi hmi, parseSec_tzHead r hr]
+    simp [parseTime, hsep, num2_w2 pad h hh _ (fun _ => hcolon _), num2_w2 pad mi hmi r (fun _ => hd),
+      parseSec_tzHead r hr]
 
 /-- **Every spelling of the family is read as the same fields and offset.** -/
 theorem parseDate_spellDate (f : Fields) (off : Int) (sp : Spelling) (hok : sp.Ok f off)
@@ -181,10 +233,14 @@ theorem parseDate_spellDate (f : Fields) (off : Int) (sp : Spelling) (hok : sp.O
   have hyn : f.year.toNat < 10000 := by omega
   have hyi : (f.year.toNat : Int) = f.year := by omega
   have htz := parseTzGroup_tzPart off hoff sp hok.hours hok.utc
+  have hdash : ∀ x : Str, NoDigHead ('-' :: x) := fun _ => by simp [NoDigHead]; decide
+  have hsepd : ∀ x : Str, sp.pad = false → NoDigHead (sp.sep :: x) := fun _ hp => by
+    simp [NoDigHead]; exact hok.sepd hp
   unfold spellDate parseDate
   rw [parseYear_pad4 _ hyn '-' (by decide)]
-  simp only [dashNum_pad2 _ hmo, dashNum_pad2 _ hd,
-    parseTime_spelled sp.sep hok.sep _ _ _ hh hmi hs sp.seconds hok.sec _ (tzHead_tzPart off sp), htz, hyi]
+  simp only [dashNum_w2 sp.pad _ hmo _ (fun _ => hdash _), dashNum_w2 sp.pad _ hd _ (hsepd _),
+    parseTime_spelled sp.pad sp.sep hok.sep _ _ _ hh hmi hs sp.seconds hok.sec _ (tzHead_tzPart off sp)
+      (noDig_tzPart off sp), htz, hyi]
 
 /-! ### nothing to strip at the end -/
 
@@ -194,17 +250,58 @@ theorem stripR_of_last (s : Str) (h : ∀ c, s.getLast? = some c → isWs c = fa
   · rw [List.concat_eq_append] at h ⊢
     exact stripR_snoc init last (h last (by simp))
 
-theorem getLast_tzText (off : Int) (st : TzStyle) (c : Char) (h : (tzText off st).getLast? = some c) :
-    isWs c = false := by
-  cases st <;> simp [tzText, formatOffset, pad2] at h <;> subst h <;> first | exact isWs_dch _ | decide
+theorem getLast_append_some (xs ys : Str) (c : Char) (h : ys.getLast? = some c) :
+    (xs ++ ys).getLast? = some c := by
+  simp [List.getLast?_append, h]
+
+theorem getLast_cons_some (a : Char) (ys : Str) (c : Char) (h : ys.getLast? = some c) :
+    (a :: ys).getLast? = some c := getLast_append_some [a] ys c h
+
+theorem getLast_tzText (off : Int) (st : TzStyle) (hst : st ≠ .none) :
+    ∃ c, (tzText off st).getLast? = some c ∧ isWs c = false := by
+  cases st with
+  | none => exact absurd rfl hst
+  | zulu => exact ⟨'Z', by simp [tzText], by decide⟩
+  | colon => exact ⟨dch (off.natAbs % 60), by simp [tzText, formatOffset, pad2], isWs_dch _⟩
+  | compact => exact ⟨dch (off.natAbs % 60), by simp [tzText, pad2], isWs_dch _⟩
+  | hours => exact ⟨dch (off.natAbs / 60), by simp [tzText, pad2], isWs_dch _⟩
+
+/-- the text from the minutes on ends with a character that is not blank -/
+theorem getLast_minutes (f : Fields) (off : Int) (sp : Spelling) :
+    ∃ c, (w2 sp.pad f.minute ++ ((if sp.seconds then ':' :: w2 sp.pad f.second else []) ++ tzPart off sp)).getLast? = some c ∧
+      isWs c = false := by
+  by_cases htz : sp.tz = .none
+  · have : tzPart off sp = [] := by simp [tzPart, htz, tzText]
+    rw [this]
+    cases hs : sp.seconds with
+    | true =>
+      refine ⟨dch f.second, ?_, isWs_dch _⟩
+      simp only [if_true, List.append_nil]
+      exact getLast_append_some _ _ _ (getLast_cons_some _ _ _ (w2_getLast _ _))
+    | false =>
+      refine ⟨dch f.minute, ?_, isWs_dch _⟩
+      simp [w2_getLast]
+  · obtain ⟨c, hc, hw⟩ := getLast_tzText off sp.tz htz
+    refine ⟨c, ?_, hw⟩
+    apply getLast_append_some
+    apply getLast_append_some
+    unfold tzPart
+    exact getLast_append_some _ _ _ hc
 
 theorem stripR_spellDate (f : Fields) (off : Int) (sp : Spelling) :
     stripR (spellDate f off sp) = spellDate f off sp := by
   apply stripR_of_last
+  obtain ⟨c0, hc0, hw⟩ := getLast_minutes f off sp
+  have : (spellDate f off sp).getLast? = some c0 := by
+    unfold spellDate
+    apply getLast_append_some; apply getLast_cons_some
+    apply getLast_append_some; apply getLast_cons_some
+    apply getLast_append_some; apply getLast_cons_some
+    apply getLast_append_some; apply getLast_cons_some
+    exact hc0
   intro c hc
-  obtain ⟨sep, seconds, tz, tzsep⟩ := sp
-  cases tz <;> cases tzsep <;> cases seconds <;>
-    simp [spellDate, tzPart, tzText, formatOffset, pad4, pad2] at hc <;> subst hc <;>
-    first | exact isWs_dch _ | decide
+  rw [this] at hc
+  cases hc
+  exact hw
 
 end Ems.TimeUnits
